@@ -283,10 +283,41 @@ func (e *Exec) strID(s string) *Term {
 }
 
 func (e *Exec) strTerm(s StrV) *Term {
+	if s.B != nil {
+		panic(unsupported{"bounded symbolic string used as an opaque string"})
+	}
 	if s.Sym != nil {
 		return s.Sym
 	}
 	return e.strID(s.C)
+}
+
+// strBytes gives the (bytes, length) view of a concrete or bounded symbolic string.
+func (e *Exec) strBytes(s StrV) ([]*Term, *Term) {
+	if s.B != nil {
+		return s.B, s.L
+	}
+	if s.Sym != nil {
+		panic(unsupported{"opaque string compared with a bounded symbolic string"})
+	}
+	b := make([]*Term, len(s.C))
+	for i := range b {
+		b[i] = e.P.BV(8, uint64(s.C[i]))
+	}
+	return b, e.P.BV(64, uint64(len(s.C)))
+}
+
+// strEq: equality of two strings at least one of which is a bounded symbolic string.
+func (e *Exec) strEq(x, y StrV) *Term {
+	xb, xl := e.strBytes(x)
+	yb, yl := e.strBytes(y)
+	r := e.P.Cmp("=", xl, yl)
+	n := min(len(xb), len(yb)) // both lengths are bounded by their byte vectors, so equal lengths are <= n
+	for i := 0; i < n; i++ {
+		in := e.P.Cmp("bvult", e.P.BV(64, uint64(i)), xl)
+		r = e.P.And(r, e.P.Or(e.P.Not(in), e.P.Cmp("=", xb[i], yb[i])))
+	}
+	return r
 }
 
 // ---- memory ----
@@ -664,6 +695,13 @@ func (e *Exec) exec(fr *frame, ins ssa.Instruction, prev *ssa.BasicBlock) (*ssa.
 			}
 			fr.env[x] = copyValue(a.E[idx])
 		case StrV:
+			if a.B != nil {
+				if idx < 0 || idx >= len(a.B) || !e.decide(e.P.Cmp("bvult", e.P.BV(64, uint64(idx)), a.L)) {
+					panic(goPanic{msg: fmt.Sprintf("index out of range [%d]", idx)})
+				}
+				fr.env[x] = IntV{T: a.B[idx]}
+				break
+			}
 			if a.Sym != nil {
 				panic(unsupported{"index of a symbolic string"})
 			}
@@ -783,7 +821,21 @@ func (e *Exec) exec(fr *frame, ins ssa.Instruction, prev *ssa.BasicBlock) (*ssa.
 				fr.env[x] = v
 			}
 		case StrV:
-			fr.env[x] = IntV{T: e.P.BV(8, uint64(m.C[e.concInt(e.get(fr, x.Index))]))}
+			idx := e.concInt(e.get(fr, x.Index))
+			if m.B != nil {
+				if idx < 0 || idx >= len(m.B) || !e.decide(e.P.Cmp("bvult", e.P.BV(64, uint64(idx)), m.L)) {
+					panic(goPanic{msg: fmt.Sprintf("index out of range [%d]", idx)})
+				}
+				fr.env[x] = IntV{T: m.B[idx]}
+				break
+			}
+			if !m.isConc() {
+				panic(unsupported{"index of a symbolic string"})
+			}
+			if idx < 0 || idx >= len(m.C) {
+				panic(goPanic{msg: fmt.Sprintf("index out of range [%d] with length %d", idx, len(m.C))})
+			}
+			fr.env[x] = IntV{T: e.P.BV(8, uint64(m.C[idx]))}
 		default:
 			panic(unsupported{"Lookup"})
 		}
@@ -934,8 +986,29 @@ func (e *Exec) slice(fr *frame, x *ssa.Slice) Value {
 		}
 		return SliceV{Arr: a.Obj, Off: lo, Len: hi - lo, Cap: mx - lo}
 	case StrV:
+		if a.B != nil {
+			lo := opt(x.Low, 0)
+			if x.High == nil {
+				// s[lo:]: needs lo <= len
+				if lo < 0 || lo > len(a.B) || !e.decide(e.P.Cmp("bvule", e.P.BV(64, uint64(lo)), a.L)) {
+					panic(goPanic{msg: "slice bounds out of range"})
+				}
+				return StrV{B: a.B[lo:], L: e.P.BinBV("bvsub", a.L, e.P.BV(64, uint64(lo)))}
+			}
+			hi := opt(x.High, 0)
+			if lo < 0 || hi < lo || hi > len(a.B) || !e.decide(e.P.Cmp("bvule", e.P.BV(64, uint64(hi)), a.L)) {
+				panic(goPanic{msg: "slice bounds out of range"})
+			}
+			return StrV{B: a.B[lo:hi], L: e.P.BV(64, uint64(hi-lo))}
+		}
+		if a.Sym != nil {
+			panic(unsupported{"slice of an opaque symbolic string"})
+		}
 		lo := opt(x.Low, 0)
 		hi := opt(x.High, len(a.C))
+		if lo < 0 || hi < lo || hi > len(a.C) {
+			panic(goPanic{msg: "slice bounds out of range"})
+		}
 		return StrV{C: a.C[lo:hi]}
 	}
 	panic(unsupported{"Slice operand"})
@@ -1066,7 +1139,18 @@ func (e *Exec) binop(op token.Token, a, b Value, t types.Type) Value {
 		}
 	case StrV:
 		y := b.(StrV)
-		if x.Sym == nil && y.Sym == nil {
+		if x.B != nil || y.B != nil {
+			switch op {
+			case token.EQL:
+				return BoolV{e.strEq(x, y)}
+			case token.NEQ:
+				return BoolV{e.P.Not(e.strEq(x, y))}
+			case token.ADD:
+				return StrV{Sym: e.fresh("strcat", 64)}
+			}
+			panic(unsupported{"operator on a bounded symbolic string"})
+		}
+		if x.isConc() && y.isConc() {
 			switch op {
 			case token.ADD:
 				return StrV{C: x.C + y.C}
@@ -1146,7 +1230,10 @@ func (e *Exec) valueEq(a, b Value) *Term {
 		return e.P.Eq(x.T, b.(BoolV).T)
 	case StrV:
 		y := b.(StrV)
-		if x.Sym == nil && y.Sym == nil {
+		if x.B != nil || y.B != nil {
+			return e.strEq(x, y)
+		}
+		if x.isConc() && y.isConc() {
 			return e.P.Bool(x.C == y.C)
 		}
 		return e.P.Cmp("=", e.strTerm(x), e.strTerm(y))
@@ -1235,7 +1322,7 @@ func (e *Exec) convert(v Value, from, to types.Type) Value {
 		if sl, ok := v.(SliceV); ok {
 			return sl
 		}
-		if s, ok := v.(StrV); ok && s.Sym == nil {
+		if s, ok := v.(StrV); ok && s.isConc() {
 			arr := &ArrayV{E: make([]Value, len(s.C))}
 			for i := range arr.E {
 				arr.E[i] = IntV{T: e.P.BV(8, uint64(s.C[i]))}
@@ -1281,7 +1368,10 @@ func (e *Exec) builtin(name string, args []Value) Value {
 		case SliceV:
 			return IntV{e.P.BV(64, uint64(a.Len)), true}
 		case StrV:
-			if a.Sym == nil {
+			if a.B != nil {
+				return IntV{a.L, true}
+			}
+			if a.isConc() {
 				return IntV{e.P.BV(64, uint64(len(a.C))), true}
 			}
 		case *ArrayV:
@@ -1301,7 +1391,7 @@ func (e *Exec) builtin(name string, args []Value) Value {
 		s := args[0].(SliceV)
 		t, ok := args[1].(SliceV)
 		if sv, isStr := args[1].(StrV); isStr {
-			if sv.Sym != nil {
+			if !sv.isConc() {
 				panic(unsupported{"append of a symbolic string"})
 			}
 			arr := &ArrayV{E: make([]Value, len(sv.C))}
@@ -1363,7 +1453,7 @@ func (e *Exec) builtin(name string, args []Value) Value {
 				d.Arr.V.(*ArrayV).E[d.Off+i] = tmp[i]
 			}
 		case StrV:
-			if src.Sym != nil {
+			if !src.isConc() {
 				panic(unsupported{"copy from symbolic string"})
 			}
 			n = min(d.Len, len(src.C))
